@@ -161,7 +161,7 @@ type Summary struct {
 	Exhausted    bool           `json:"exhausted"` // enumeration finished
 	Problems     []string       `json:"problems"`
 	MoreFailures int            `json:"more_failures"` // failing runs beyond the first of each class
-	AggSig       string         `json:"agg_sig"` // order-dependent hash over (run index, signature, tape length) of all runs
+	AggSig       string         `json:"agg_sig"`       // order-dependent hash over (run index, signature, tape length) of all runs
 	ReplayOK     bool           `json:"replay_ok"`
 	ReplayMsg    string         `json:"replay_msg"`
 }
